@@ -61,9 +61,10 @@ def registries(rng, n):
         for p in itertools.permutations(KINDS, k):
             subsets.append(p)
     regs = [(p, False) for p in subsets]
-    regs += [(tuple(KINDS), True), ((), True), (("FloatString", "IntString"), True)]
+    shipped = [(tuple(KINDS), True), (tuple(KINDS), False)]      # the registries the library itself builds: always explored
+    regs += [((), True), (("FloatString", "IntString"), True)]
     rng.shuffle(regs)
-    return regs[:n]
+    return shipped + regs[:max(0, n - len(shipped))]
 
 
 def correspondence(ctx, batch):
